@@ -294,6 +294,10 @@ class Translator:
             return ("v",)
         if q in INT_TYPES:
             return ("i",) + INT_TYPES[q]
+        if q == "float" and getattr(self, "float_bits", False):
+            # bit-program mode only (vlib/srcdeep.py): an IEEE-754 single as its 32-bit pattern.  Only moves are translated (loads, stores,
+            # by-value passing, byte access through a char pointer); every arithmetic operator, comparison and conversion on it is rejected.
+            return ("i", 32, False, "f")
         e = self.enum_lookup(q)
         if e is not None:
             return ("i",) + e
